@@ -318,8 +318,21 @@ func readyClosedOnce(c *core.Ctx) {
 			okExits++
 			stored := -1
 			validated := -1
+			// the response and the variables it was copied into on this path (a phase split hands it on)
+			alias := map[types.Object]bool{respObj: true}
 			for i, st := range s.Steps {
-				if as, ok := st.(*ast.AssignStmt); ok && len(as.Lhs) == 1 && astx.IsFieldNamed(info, as.Lhs[0], "response") && astx.ObjOf(info, as.Rhs[0]) == respObj {
+				if as, ok := st.(*ast.AssignStmt); ok && len(as.Lhs) == len(as.Rhs) {
+					for j := range as.Lhs {
+						if ro := astx.ObjOf(info, as.Rhs[j]); ro != nil && alias[ro] {
+							if lo := astx.ObjOf(info, as.Lhs[j]); lo != nil {
+								if _, isField := lo.(*types.Var); isField && !lo.(*types.Var).IsField() {
+									alias[lo] = true
+								}
+							}
+						}
+					}
+				}
+				if as, ok := st.(*ast.AssignStmt); ok && len(as.Lhs) == 1 && astx.IsFieldNamed(info, as.Lhs[0], "response") && alias[astx.ObjOf(info, as.Rhs[0])] && astx.ObjOf(info, as.Rhs[0]) != nil {
 					stored = i
 				}
 				for _, call := range astx.Calls(st) {
